@@ -287,7 +287,7 @@ impl<T: Send> Drop for RendezvousSyncReceiver<T> {
 impl<T: Send> RendezvousAsyncSender<T> {
   /// Sends a value, resolving once a receiver takes it or the channel closes.
   pub fn send(&self, item: T) -> SendFuture<'_, T> {
-    SendFuture::new(&self.shared, item)
+    SendFuture::new(&self.shared, &self.closed, item)
   }
 
   /// Attempts to hand off to an already-waiting receiver without awaiting.
@@ -372,7 +372,7 @@ impl<T: Send> RendezvousAsyncReceiver<T> {
   /// Receives a value, resolving once a sender hands one off or the channel
   /// disconnects.
   pub fn recv(&self) -> RecvFuture<'_, T> {
-    RecvFuture::new(&self.shared)
+    RecvFuture::new(&self.shared, &self.closed)
   }
 
   /// Attempts to take from an already-waiting sender without awaiting.
@@ -462,6 +462,7 @@ impl<T: Send> Drop for RendezvousAsyncReceiver<T> {
 #[must_use = "futures do nothing unless you .await or poll them"]
 pub struct SendFuture<'a, T: Send> {
   shared: &'a Arc<MpmcRvShared<T>>,
+  closed: &'a AtomicBool,
   slot: Option<T>,
   state: AtomicU8,
   registered: bool,
@@ -469,9 +470,10 @@ pub struct SendFuture<'a, T: Send> {
 }
 
 impl<'a, T: Send> SendFuture<'a, T> {
-  fn new(shared: &'a Arc<MpmcRvShared<T>>, item: T) -> Self {
+  fn new(shared: &'a Arc<MpmcRvShared<T>>, closed: &'a AtomicBool, item: T) -> Self {
     Self {
       shared,
+      closed,
       slot: Some(item),
       state: AtomicU8::new(WAITING),
       registered: false,
@@ -487,6 +489,10 @@ impl<'a, T: Send> Future for SendFuture<'a, T> {
     let this = unsafe { self.get_unchecked_mut() };
     if this.slot.is_none() && !this.registered {
       return Poll::Ready(Ok(()));
+    }
+    // A handle that was itself closed rejects new operations (as `try_send` does).
+    if !this.registered && this.slot.is_some() && this.closed.load(Ordering::Relaxed) {
+      return Poll::Ready(Err(SendError::Closed));
     }
     this
       .shared
@@ -511,6 +517,7 @@ impl<'a, T: Send> Drop for SendFuture<'a, T> {
 #[must_use = "futures do nothing unless you .await or poll them"]
 pub struct RecvFuture<'a, T: Send> {
   shared: &'a Arc<MpmcRvShared<T>>,
+  closed: &'a AtomicBool,
   dest: Option<T>,
   state: AtomicU8,
   registered: bool,
@@ -518,9 +525,10 @@ pub struct RecvFuture<'a, T: Send> {
 }
 
 impl<'a, T: Send> RecvFuture<'a, T> {
-  fn new(shared: &'a Arc<MpmcRvShared<T>>) -> Self {
+  fn new(shared: &'a Arc<MpmcRvShared<T>>, closed: &'a AtomicBool) -> Self {
     Self {
       shared,
+      closed,
       dest: None,
       state: AtomicU8::new(WAITING),
       registered: false,
@@ -534,6 +542,10 @@ impl<'a, T: Send> Future for RecvFuture<'a, T> {
 
   fn poll(self: Pin<&mut Self>, cx: &mut Context<'_>) -> Poll<Self::Output> {
     let this = unsafe { self.get_unchecked_mut() };
+    // A handle that was itself closed rejects new operations (as `try_recv` does).
+    if !this.registered && this.dest.is_none() && this.closed.load(Ordering::Relaxed) {
+      return Poll::Ready(Err(RecvError::Disconnected));
+    }
     this
       .shared
       .poll_recv(cx, &this.state, &mut this.dest, &mut this.registered)
